@@ -1050,7 +1050,7 @@ func init() {
 	mc.Register(&mc.Prop{
 		ID:    "C20",
 		Level: "model_checking",
-		Rule: "RNG part - each rand.Float64 answer is a choice point offering every value of a stated answer set (values k/2^53, as rand.Float64 returns them: mid={.1,.5,.9}; ext={first value >1e-7, .5, last value <.9999999}; low={0, last value <=1e-7, first value >1e-7, .5}; high={.5, last value <.9999999, .9999999, 1-2^-53}; small={1e-3,.5,.999}; six={last value <=1e-7, first value >1e-7, .1,.5,.9, last value <.9999999}; pair={.3,.8}; inv={.3,.6,.9}; all9=union of mid,low,high) and EVERY sequence of answers of total length <= the case's draw budget is executed (budget = b + e, b = draws of a run in which nothing is redrawn; a path needing more is cut and counted, never judged for valid parameters). " +
+		Rule: "Command line: goalign build weightboot -n 1,2,5 on alignments of 3..2000 sites, to standard output, a file and a .gz file: as many lines as vectors, one strictly positive finite weight per site, each line summing to the alignment length (to the printed precision). Free-running complement: DiscreteGamma / IncompleteGamma called by 8 goroutines at once give the values of the same calls made alone, under the race detector. " + "RNG part - each rand.Float64 answer is a choice point offering every value of a stated answer set (values k/2^53, as rand.Float64 returns them: mid={.1,.5,.9}; ext={first value >1e-7, .5, last value <.9999999}; low={0, last value <=1e-7, first value >1e-7, .5}; high={.5, last value <.9999999, .9999999, 1-2^-53}; small={1e-3,.5,.999}; six={last value <=1e-7, first value >1e-7, .1,.5,.9, last value <.9999999}; pair={.3,.8}; inv={.3,.6,.9}; all9=union of mid,low,high) and EVERY sequence of answers of total length <= the case's draw budget is executed (budget = b + e, b = draws of a run in which nothing is redrawn; a path needing more is cut and counted, never judged for valid parameters). " +
 			"dna.BuildWeightsDirichlet (b=L): L=3,4,5 x {mid,ext,low,high} e=4 (thorough 6), all9 for L=3,4 (thorough 5) e=2 (thorough also L=6 e=1), L=6 (thorough 6,7,8) under ext e=2. dna.BuildWeightsGamma (b=2L): quick (L,set,e) = (3,mid,4)(3,ext,4)(3,low,2)(3,high,2)(3,six,2)(4,mid,2)(4,ext,2)(4,low,2)(4,high,2)(5,mid,2)(5,ext,2)(6,pair,2); thorough (3,mid,6)(3,ext,6)(3,low,4)(3,high,4)(3,six,2)(3,all9,1)(4,mid,4)(4,ext,4)(4,low,2)(4,high,2)(4,six,1)(5,mid,2)(5,ext,2)(5,low,1)(5,high,1)(6..8,pair,2). " +
 			"stats.Dirichlet: every ordered triple of shapes {0.01,0.2,0.5,0.99,1,1.01,2,10,100} (b = 1 per shape-1 component, 2 per other) under mid,ext,small with e=2 (thorough 5) and under low,high with e=1 (thorough 2), requested totals {1,3,0.25,1000} rotating; 27 vectors (a,b,a,b), a in the 9 shapes, b in {.5,1,2}, under mid e=2; thorough also 27 vectors (a,b,1,b,a) and all 625 4-vectors over {0.2,0.99,1,2,100} under ext e=2. stats.Dirichlet1: 3..6 values x 4 totals x {mid,low,high,all9}. " +
 			"Invalid parameters: Dirichlet with one component (each position of 3, one of 4) or all 3 components in {NaN,+Inf,0,-0,-1,-0.5,-Inf} next to shape-1 components, with 0 and 1 component, Dirichlet1 with nvalues in {-3,-1,0,1}: every sequence of <=10 answers over inv. models.GenerateRates(discrete gamma) for the 9 shapes x ncat 2..4 (thorough 6) x 1..3 (4) sites with every category answer of rand.Intn. " +
@@ -1065,8 +1065,12 @@ func init() {
 			"+Inf and NaN are invalid Dirichlet parameters (the parameters of a Dirichlet distribution are positive reals)",
 			"the claims hold on the stated lattices only; nothing is claimed between lattice points",
 		},
-		Tasks: c20Tasks,
+		Tasks: func(tier string) []mc.Task { return append(c20Tasks(tier), c20CLITasks()...) },
+		Post:  func(m *mc.Master) { m.RacePass("gamma") },
 		Replay: func(c *mc.Ctx, payload json.RawMessage) {
+			if c20CLIReplay(c, payload) {
+				return
+			}
 			var cs c20Case
 			if err := json.Unmarshal(payload, &cs); err != nil {
 				c.Fatal("bad payload: %v", err)
